@@ -12,7 +12,7 @@ TEXT = {
  },
  "C04": {
   "technique": "reference-model conformance inside the simulator (seeded table-pair generator, map-by-key diff model, process isolation, shrinking); scheduler and fault injector add nothing for this pure function",
-  "level_text": "Seeded exploration of table pairs derived by edit scripts (edits at block edges, nested ranges, empty side, keyless, composite keys, 0-4 blocks, one or two stores); every diff event, its offsets (through BlockBuffer and raw decode), self-diff and argument-swap symmetry are checked against a map-by-key model. Later additions: duplicate CSV lines at block edges, tables handed over without their Sum field, a small sample against a 9000-14000-row table (one block spanning dozens), one transient read error per case.",
+  "level_text": "Seeded exploration of table pairs derived by edit scripts (edits at block edges, nested ranges, empty side, keyless, composite keys, 0-4 blocks, one or two stores); every diff event, its offsets (through BlockBuffer and raw decode), self-diff and argument-swap symmetry are checked against a map-by-key model. Later additions: duplicate CSV lines at block edges, tables handed over without their Sum field, a small sample against a 9000-14000-row table (one block spanning dozens), one transient read error per case. Wave 8: tables ingested by 2-14 block workers under the seeded scheduler.",
   "level_note": _T + " BlockBuffer size comes from /proc/meminfo and never evicts here.",
  },
  "C07": {
@@ -27,12 +27,12 @@ TEXT = {
  },
  "C11": {
   "technique": "deterministic simulation with clock faults: histories authored under skewed / tied / reversed / backward-jumping timestamps, real IsAncestorOf / CommitsQueue walk / SeekCommonAncestor vs graph reachability model with a step budget",
-  "level_text": "Seeded exploration of DAGs up to 30 commits x 6 timestamp regimes; all ordered pairs for the ancestor test, a full walk from every commit, and 40 sampled 2-4-tuples per graph for the merge base. Graph shapes are sampled, not enumerated. Later additions: ladder graphs, commits listing a parent twice, sampled queries re-run with one commit read failing (an error or the right answer).",
+  "level_text": "Seeded exploration of DAGs up to 30 commits x 6 timestamp regimes; all ordered pairs for the ancestor test, a full walk from every commit, and 40 sampled 2-4-tuples per graph for the merge base. Graph shapes are sampled, not enumerated. Later additions: ladder graphs, commits listing a parent twice, sampled queries re-run with one commit read failing (an error or the right answer). Wave 8: faulted queries fail a get, an existence test or any read.",
   "level_note": _T,
  },
  "C15": {
   "technique": "reference-model conformance of the real SQL ref store on a real SQLite file, with reopen as an operation and statement-level SQL fault injection through a database/sql driver wrapper",
-  "level_text": "Seeded exploration of operation sequences (<=40) over a hostile name alphabet; every return value and, after every step, a full dump of refs and logs is compared with a map + per-name log model; injected SQL statement failures check that each method is atomic. Later additions: reflogs of 2-320 entries (paged readers); profile C15fs covers the file store.",
+  "level_text": "Seeded exploration of operation sequences (<=40) over a hostile name alphabet; every return value and, after every step, a full dump of refs and logs is compared with a map + per-name log model; injected SQL statement failures check that each method is atomic. Later additions: reflogs of 2-320 entries (paged readers); profile C15fs covers the file store. Wave 8: multi-byte names; SQL failures (statements and row steps of scans, which surface only in rows.Err()) also in reads, listings and bulk operations.",
   "level_note": _T + " SQLite itself is trusted.",
  },
  "C16": {
@@ -52,32 +52,32 @@ TEXT = {
  },
  "C20": {
   "technique": "reference-model conformance of index.HashSet over a simulated file (os.File semantics, reopen) with on-file invariants checked after every flush",
-  "level_text": "Seeded exploration of Add/Flush/Has/Len/reopen sequences (<=200) over a 65-hash space with first bytes 00,01,7f,fe,ff and batch sizes 1..8/default; membership, Len, sortedness and fan-out consistency checked against a Go map after every flush and reopen; thorough tier also uses a real temp file. Later additions: sets of 4200-11000 entries receiving small batches, reopen through a handle positioned at the end or through the same handle, transient read errors during Add / Has with retry.",
+  "level_text": "Seeded exploration of Add/Flush/Has/Len/reopen sequences (<=200) over a 65-hash space with first bytes 00,01,7f,fe,ff and batch sizes 1..8/default; membership, Len, sortedness and fan-out consistency checked against a Go map after every flush and reopen; thorough tier also uses a real temp file. Later additions: sets of 4200-11000 entries receiving small batches, reopen through a handle positioned at the end or through the same handle, transient read errors during Add / Has with retry. Wave 8: 200-690 new hashes sharing one first byte in a single flush; read errors inside Flush before its first write, flushed again.",
   "level_note": _T,
  },
  "C02": {
   "technique": "metamorphic deterministic simulation: one logical table ingested under two seeded presentations (row order, delimiter, spill size, worker count, store-op schedule, store instance) must get one identifier; one mutation must change it; CLI re-commit must report no change",
-  "level_text": "Seeded exploration of presentation pairs through the real sorter + ingest worker pool under the parking scheduler, plus the in-process CLI path (commit --set-file, rewrite permuted, commit again) with the file mtime set before/after the simulated commit time. Later additions: a file-size limit (RLIMIT_FSIZE) as a full disk while one presentation spills (refused, or the same identifier); two sorters alive at once in one process; prefix-related composite keys; multi-byte delimiters.",
+  "level_text": "Seeded exploration of presentation pairs through the real sorter + ingest worker pool under the parking scheduler, plus the in-process CLI path (commit --set-file, rewrite permuted, commit again) with the file mtime set before/after the simulated commit time. Later additions: a file-size limit (RLIMIT_FSIZE) as a full disk while one presentation spills (refused, or the same identifier); two sorters alive at once in one process; prefix-related composite keys; multi-byte delimiters. Wave 8: the same key columns in another order as a single mutation.",
   "level_note": _T,
  },
  "C05": {
   "technique": "deterministic simulation of merge.Merger + RowCollector + hash set (simulated file) + sorter + ingest, driven as the CLI drives them, against scenarios whose result is known by construction",
-  "level_text": "Seeded exploration of constructive 3-way merge scenarios (key column anywhere or none, 1-3 blocks, 2-3 branches; one branch = base, identical branches, disjoint edits, declared same-cell and remove-vs-modify conflicts; column add/remove/move/rename; branch order permuted; hash-set batch 1..default; blocks or rows output). Differ/merger interleaving is left to the Go runtime (the merger busy-polls), the oracle is order-independent. Later additions: column adds in two branches, a branch or the base declaring the key in another order (refused or right), columns swapped by name with unchanged row bytes, add-add conflicts with an empty cell; profile C05cli drives `wrgl merge` for ahead / behind / equal / diverged histories under every fast-forward mode with store read errors.",
+  "level_text": "Seeded exploration of constructive 3-way merge scenarios (key column anywhere or none, 1-3 blocks, 2-3 branches; one branch = base, identical branches, disjoint edits, declared same-cell and remove-vs-modify conflicts; column add/remove/move/rename; branch order permuted; hash-set batch 1..default; blocks or rows output). Differ/merger interleaving is left to the Go runtime (the merger busy-polls), the oracle is order-independent. Later additions: column adds in two branches, a branch or the base declaring the key in another order (refused or right), columns swapped by name with unchanged row bytes, add-add conflicts with an empty cell; profile C05cli drives `wrgl merge` for ahead / behind / equal / diverged histories under every fast-forward mode with store read errors; profile C05col covers a row added by both branches next to a column added by one, and a column of the same name added by both with agreeing or differing cells.",
   "level_note": _T + " Scenarios with a column change in one branch and a row removal in another are excluded (the resolver reports them as conflicts, which the statement permits).",
  },
  "C13": {
   "technique": "fault enumeration in the simulator: the global write log (object store + real SQLite ref store snapshots) of each operation is recorded, every prefix is materialised as a crash state, reopened, checked and the operation re-run; plus a failure injected at every write position (once, and sticky = disk full)",
-  "level_text": "For every generated case ALL crash points of the executed operation are enumerated (exhaustive over the write sequence of that run, sampled over inputs): commit to an existing/new branch (incl. multi-worker ingest under the seeded scheduler), merge fast-forward / --no-ff / 3-way, prune; invariants I1-I4 on every state and equivalence (tables + history shape) of the re-run with the uninterrupted run. Later additions: fetch and pull against the reference server are prefix-enumerated like the others; mode sqlerror fails every SQL statement of the ref store once; refusal of merges onto commits without their table; `wrgl prune` on every crash state before the re-run.",
+  "level_text": "For every generated case ALL crash points of the executed operation are enumerated (exhaustive over the write sequence of that run, sampled over inputs): commit to an existing/new branch (incl. multi-worker ingest under the seeded scheduler), merge fast-forward / --no-ff / 3-way, prune; invariants I1-I4 on every state and equivalence (tables + history shape) of the re-run with the uninterrupted run. Later additions: fetch and pull against the reference server are prefix-enumerated like the others; mode sqlerror fails every SQL statement of the ref store once; refusal of merges onto commits without their table; `wrgl prune` on every crash state before the re-run. Wave 8: SQL fault points include the row steps of scans.",
   "level_note": _T + " Crash = process death between two store writes (completed writes survive); torn writes inside one Set / one SQL transaction are not modelled (Badger and SQLite are trusted to be atomic per call).",
  },
  "C14": {
   "technique": "fault enumeration in the simulator over `wrgl transaction commit|discard`: crash after every write prefix and failure at every object-store/ref-store write, re-run, plus double-commit / discard-after-commit sequences",
-  "level_text": "Transactions staging 1-4 new/existing branches through the in-process CLI; every crash point and every single write failure of commit and discard is enumerated per case; oracle: every branch untouched with the transaction in progress, or completable by re-running to exactly one new commit per branch carrying the staged table, committed status and one tagged reflog entry per branch; never two commits ahead; committed transactions refuse commit and discard. Later additions: mode sqlerror (every SQL statement fails once), an ordinary commit between the interrupted run and the re-run, a staged branch that moved (other or identical data) before the transaction is committed.",
+  "level_text": "Transactions staging 1-4 new/existing branches through the in-process CLI; every crash point and every single write failure of commit and discard is enumerated per case; oracle: every branch untouched with the transaction in progress, or completable by re-running to exactly one new commit per branch carrying the staged table, committed status and one tagged reflog entry per branch; never two commits ahead; committed transactions refuse commit and discard. Later additions: mode sqlerror (every SQL statement fails once), an ordinary commit between the interrupted run and the re-run, a staged branch that moved (other or identical data) before the transaction is committed. Wave 8: SQL fault points include the row steps of scans.",
   "level_note": _T,
  },
  "C09": {
   "technique": "multi-node deterministic simulation: client repositories and a remote in one process, every wrgl command an in-process CLI process in its own synctest bubble (per-node clocks), real client sessions / fetch / push / pull over a simulated network (simnet RoundTripper with chunking and injected loss, duplication, 5xx, stream errors, server restarts, delays) against a reference server assembled from wrgl's own finder/sender/receiver",
-  "level_text": "Seeded exploration of 6-17-operation histories on three nodes x server knobs (table-negotiation batch, max packfile size) x client pack size x response chunking; fault-free profile: closure, tables within depth, byte-identical objects, I1-I4 on all nodes after every operation, immediate repeat transfers nothing; fault profile: an operation may fail, success implies the postcondition, failures leave I1-I4 intact, and after the last fault one more fetch succeeds within a request budget (push back-off and delays run on the fake clock). Later additions: SQL statement errors (hook H3), object-store errors on either side, op-relative network faults, 404 plain-text replies, leftovers of an interrupted transfer, tags-only forced fetches, `pull --all` / `push --all`, branches of 257-520 tables, and `unexpected-failure` for operations that fail without an injected fault.",
+  "level_text": "Seeded exploration of 6-17-operation histories on three nodes x server knobs (table-negotiation batch, max packfile size) x client pack size x response chunking; fault-free profile: closure, tables within depth, byte-identical objects, I1-I4 on all nodes after every operation, immediate repeat transfers nothing; fault profile: an operation may fail, success implies the postcondition, failures leave I1-I4 intact, and after the last fault one more fetch succeeds within a request budget (push back-off and delays run on the fake clock). Later additions: SQL statement errors (hook H3), object-store errors on either side, op-relative network faults, 404 plain-text replies, leftovers of an interrupted transfer, tags-only forced fetches, `pull --all` / `push --all`, branches of 257-520 tables, and `unexpected-failure` for operations that fail without an injected fault. Wave 8: merges with arms of different lengths on the remote fetched at depth 2-4 (op diamond); profile C09two with two reference servers (a depth-limited copy of R's branch pushed to R2 after the remote origin was kept, removed or renamed).",
   "level_note": _T + " The remote's HTTP glue (routing, sessions, ref compare-and-swap, policy) is a harness stub written from the client's expectations (DESIGN 2.5.1); only client-side code under /repo is judged. A commit that was already present without its table (earlier --depth fetch) staying shallow after a full fetch is wrgl's documented behaviour (`wrgl fetch tables`) and is reported as class table-missing-previously-shallow, which this check does not count.",
  },
  "C10": {
@@ -92,7 +92,7 @@ TEXT = {
  },
  "C17": {
   "technique": "corruption as a fault at the disk and wire seams of the simulator: stored values / packfiles / encoded streams are bit-flipped, truncated, given inflated counts or wrong labels and read through every reader; replies of the simulated remote are truncated or bit-flipped during real fetch/pull/push; panic, hang and allocation are observed per call",
-  "level_text": "Seeded, structure-aware corruption (not coverage-guided fuzzing): one corruption per case of one stored object of a real generated repository (raw or inside the s2 frame), of a real packfile fed to ObjectReceiver.Receive, or of one of 9 encoded stream kinds; plus the multi-node run with corrupted replies. Oracle: returns, no panic in any goroutine (goroutine panics kill the worker and are attributed to the seed), allocation <= 64 x input + 16 MiB, stored objects after a rejected packfile are keyed by their hash, decodable and pass I1-I3, success of a command implies the C09 postcondition. Later additions: kind forged (well-formed, correctly hashed objects that contradict each other; 16-byte time fields and over-long object headers no mutation reaches); hostile but well-formed JSON replies, empty packfiles for ever (request budget), 404 plain text during `pull --all` / `push --all`.",
+  "level_text": "Seeded, structure-aware corruption (not coverage-guided fuzzing): one corruption per case of one stored object of a real generated repository (raw or inside the s2 frame), of a real packfile fed to ObjectReceiver.Receive, or of one of 9 encoded stream kinds; plus the multi-node run with corrupted replies. Oracle: returns, no panic in any goroutine (goroutine panics kill the worker and are attributed to the seed), allocation <= 64 x input + 16 MiB, stored objects after a rejected packfile are keyed by their hash, decodable and pass I1-I3, success of a command implies the C09 postcondition. Later additions: kind forged (well-formed, correctly hashed objects that contradict each other; 16-byte time fields and over-long object headers no mutation reaches); hostile but well-formed JSON replies, empty packfiles for ever (request budget), 404 plain text during `pull --all` / `push --all`. Wave 8: forged tables naming a block index the destination already holds.",
   "level_note": _T + " Open finding C17-s2-block-length (s2.Decode allocates the announced block length) is classified separately and printed as KNOWN-FINDING.",
  },
  "C03": {
@@ -102,7 +102,7 @@ TEXT = {
  },
  "C06": {
   "technique": "write monitor at the simulated object store (key = hash of canonical bytes, decode, re-encode = stored bytes, same key => same bytes) active in every profile, plus an own profile driving field extremes through the in-process CLI with simulated clocks and zones, and the packfile length header through hook H2",
-  "level_text": "Seeded exploration of message/name/email lengths 0..70000, node clocks up to year 2262 (limit of the synctest clock) and library-level times up to year 9999 and before year 1, zone offsets incl. half hours and seconds, rows crossing 64 KiB, 1..256 rows; packfile header round trip over all varint boundaries, 32-bit and sampled 64-bit lengths (sampled, not every 32-bit length). Oracle: error at write time with the branch untouched, or read back equal. Later additions: library-level tables of up to 5000 block sums; table profiles with NaN / infinite / extreme float statistics.",
+  "level_text": "Seeded exploration of message/name/email lengths 0..70000, node clocks up to year 2262 (limit of the synctest clock) and library-level times up to year 9999 and before year 1, zone offsets incl. half hours and seconds, rows crossing 64 KiB, 1..256 rows; packfile header round trip over all varint boundaries, 32-bit and sampled 64-bit lengths (sampled, not every 32-bit length). Oracle: error at write time with the branch untouched, or read back equal. Later additions: library-level tables of up to 5000 block sums; table profiles with NaN / infinite / extreme float statistics. Wave 8: block indices computed from stored bytes vs from decoded rows for every order of 0-4 key columns.",
   "level_note": _T + " Exhaustive enumeration of all 32-bit lengths is model checking and is not attempted.",
  },
 }
